@@ -164,7 +164,7 @@ impl<const N: u32> PxE2<{ N }> {
 
                 if frac_length < 0 {
                     //in both cases, reg=29 and 30, e is n+1 bit and frac are sticky bits
-                    if reg == N - 3 {
+                    if reg + 3 == N {
                         bit_n_plus_one = (exp & 0x1) != 0;
                         //exp>>=1; //taken care of by the pack algo
                         exp &= 0x2;
@@ -242,7 +242,7 @@ impl<const N: u32> PxE2<{ N }> {
             let frac_length = (N as isize) - 4 - (reg as isize);
             if frac_length < 0 {
                 //in both cases, reg=29 and 30, e is n+1 bit and frac are sticky bits
-                if reg == N - 3 {
+                if reg + 3 == N {
                     bit_n_plus_one = (exp & 0x1) != 0;
                     //exp>>=1; //taken care of by the pack algo
                     exp &= 0x2;
@@ -311,7 +311,7 @@ impl<const N: u32> PxE2<{ N }> {
 
         let sign = i_a.is_negative();
         if sign {
-            i_a = -i_a;
+            i_a = i_a.wrapping_neg();
         }
 
         let ui_a = if (N == 2) && (i_a > 0) {
@@ -350,7 +350,7 @@ impl<const N: u32> PxE2<{ N }> {
     pub const fn from_i64(mut i_a: i64) -> Self {
         let sign = i_a.is_negative();
         if sign {
-            i_a = -i_a;
+            i_a = i_a.wrapping_neg();
         }
 
         let ui_a = if (N == 2) && (i_a > 0) {
